@@ -124,4 +124,11 @@ def pyInt (s : Bytes) : Option Int :=
   | some (v, n) => if n > maxStrDigits then none else some (if neg then -(v : Int) else (v : Int))
   | none => none
 
+/-- the CheckSum(10) value: exactly three ASCII digits
+(`len(value) == 3 and value.isascii() and value.isdigit()`, then `int(value)`) -/
+def ckParse (v : Bytes) : Option Nat :=
+  match v with
+  | [a, b, c] => if isDigit a && isDigit b && isDigit c then some ((a - 48) * 100 + (b - 48) * 10 + (c - 48)) else none
+  | _ => none
+
 end AsyncFix.Model.Codec
